@@ -611,6 +611,7 @@ rule "f" salience 3 begin return Obj.V end
 rule "fn" salience 2 begin return getv() end
 rule "t" salience 1 begin return Holder.In.Get() end
 rule "w" salience 0 begin Obj.V = Obj.V + 1000 return Obj.V end
+rule "pw" salience -1 begin Cnt = 5 Cnt2 := 6 end
 `
 	if err := trace.CompileLocked(func() error { return rb.BuildRuleFromString(text) }); err != nil {
 		k.Inconclusive("reinjection text does not compile: " + err.Error())
@@ -664,4 +665,20 @@ rule "w" salience 0 begin Obj.V = Obj.V + 1000 return Obj.V end
 	check("overwritten", map[string]int64{"m": base + 2, "f": base + 2, "fn": (base + 2) * 10, "t": (base + 2) * 100, "w": base + 1002})
 	dc.Del("Obj")
 	check("partly-removed", map[string]int64{"fn": (base + 2) * 10, "t": (base + 2) * 100})
+	// a plain name that was a rule local in the earlier calls is now injected as a pointer: the
+	// assignment must store through it (the injected object is in charge), and stop doing so once
+	// it is removed again
+	cnt, cnt2 := new(int64), new(int32)
+	dc.Add("Cnt", cnt)
+	dc.Add("Cnt2", cnt2)
+	check("local-name-now-injected", map[string]int64{"fn": (base + 2) * 10, "t": (base + 2) * 100})
+	if *cnt != 5 || *cnt2 != 6 {
+		k.Violate("reinject/local-name-now-injected", fmt.Sprintf("`Cnt = 5  Cnt2 := 6` ran with Cnt, Cnt2 injected as pointers (they were rule locals in the earlier calls): the host sees %d, %d", *cnt, *cnt2), map[string]interface{}{"rule_text": text})
+	}
+	*cnt, *cnt2 = 0, 0
+	dc.Del("Cnt", "Cnt2")
+	check("injected-name-local-again", map[string]int64{"fn": (base + 2) * 10, "t": (base + 2) * 100})
+	if *cnt != 0 || *cnt2 != 0 {
+		k.Violate("reinject/injected-name-local-again", fmt.Sprintf("after Cnt / Cnt2 were removed the rule still stored through the old pointers: %d, %d", *cnt, *cnt2), map[string]interface{}{"rule_text": text})
+	}
 }
